@@ -368,3 +368,24 @@ fn c08_k_pair_lemma() {
   assert!(spec::emod(month_stem, 2) == spec::emod(month_branch, 2), "stem and branch have the same parity: a legal pillar");
   kani::cover!(!after && k == -2, "pair_lemma reachable (Zi month of the previous pillar year)");
 }
+
+// C15: the conversions `HeavenStem -> LoopTyme` / `EarthBranch -> LoopTyme` used by the Dog-day and Plum-rain code keep the
+// index and have the size of the real name tables (10 / 12) - the `verif_into` contract of the Verus unit c15_series.
+#[kani::proof]
+#[kani::unwind(14)]
+#[kani::stub(alloc::fmt::format, stub_format)]
+fn c15_k_into_loop_stem() {
+  let i: isize = kani::any(); kani::assume(i >= 0 && i < 10);
+  let l: LoopTyme = HeavenStem::from_index(i).into();
+  assert!(l.get_index() as isize == i && l.get_size() == 10, "stem -> LoopTyme keeps the index; 10 stems");
+  kani::cover!(i == 6, "into_loop_stem reachable");
+}
+#[kani::proof]
+#[kani::unwind(14)]
+#[kani::stub(alloc::fmt::format, stub_format)]
+fn c15_k_into_loop_branch() {
+  let i: isize = kani::any(); kani::assume(i >= 0 && i < 12);
+  let l: LoopTyme = EarthBranch::from_index(i).into();
+  assert!(l.get_index() as isize == i && l.get_size() == 12, "branch -> LoopTyme keeps the index; 12 branches");
+  kani::cover!(i == 7, "into_loop_branch reachable");
+}
